@@ -67,7 +67,9 @@ def run(rep):
     # real sockets
     nreal = 1500 if thorough else 60
     lines, rc, raw = real_run(rbin, rep.seed, nreal, 8, thorough)
-    fails = [l for l in lines if ':: FAIL' in l]
+    fails = [l for l in lines if ':: FAIL' in l and 'changed before Release' not in l]
+    c02 = [l for l in lines if ':: FAIL' in l and 'changed before Release' in l]
+    if c02: rep.notes.append('%d scenario(s) where a held zero-copy result changed before Release (property C02, reported by ./check C02): %s' % (len(c02), re.sub(r'ops=map\[[^]]*\]', '', c02[0])[:300]))
     # a failure on real sockets is schedule dependent: re-run the scenario to see whether it reproduces
     confirmed = []
     for l in fails[:5]:
